@@ -92,3 +92,31 @@ Example C17_ex_sort :
   sort_all_objects true (VObj [([98], VObj [([122], VNull); ([97], VNull)]); ([97], VArr [])])
   = VObj [([97], VArr []); ([98], VObj [([97], VNull); ([122], VNull)])].
 Proof. vm_compute. reflexivity. Qed.
+
+(* ---- the Map wrapper of src/map.rs TRANSLATED ON THIS RUN (tools/translate_map.py -> Gen/MapTables.v: for each of 60 methods and both builds the backing call it
+        makes — remove = swap_remove under preserve_order, append, sort_keys, the sorted Hash ...): one step of the model IS the table's meaning, for every operation ---- *)
+From SJ Require Import Base.Bytes Base.FloatB Model.Value Spec.Dict Model.MapM Model.MapAst Gen.MapTables Proofs.MapMBase Proofs.MapMEq.
+From SJ Require Import Proofs.MapSrc.
+Theorem C17_map_wrapper_is_source : forall po m o, table_step MAP_TABLE po m o = Some (step po m o).
+Proof. exact (@MapSrc.map_model_is_translated_source). Qed.
+Print Assumptions C17_map_wrapper_is_source.
+
+Theorem C17_map_histories_are_source : forall po ops m, table_run MAP_TABLE po m ops = Some (run po m ops).
+Proof. exact (@MapSrc.map_run_is_translated_source). Qed.
+Print Assumptions C17_map_histories_are_source.
+
+Theorem C17_hash_is_source : forall po m,
+  option_map (cons (HIsize 5)) (hash_meaning (call MAP_TABLE po T_hash) (hash_feed po) m) = Some (hash_feed po (VObj m)).
+Proof. exact (@MapSrc.hash_obj_is_source). Qed.
+Print Assumptions C17_hash_is_source.
+
+Theorem C17_eq_is_source : forall po ma mb,
+  eq_meaning (call MAP_TABLE po T_eq) (veq po) ma mb = Some (veq po (VObj ma) (VObj mb)).
+Proof. exact (@MapSrc.veq_obj_is_source). Qed.
+Print Assumptions C17_eq_is_source.
+
+Theorem C17_builds_agree_elsewhere : forall mth,
+  In mth cfg_dependent <-> forget_store (raw_call MAP_TABLE false mth) <> forget_store (raw_call MAP_TABLE true mth).
+Proof. exact (@MapSrc.builds_agree_elsewhere). Qed.
+Print Assumptions C17_builds_agree_elsewhere.
+
